@@ -425,6 +425,13 @@ def check_case(ctx, case, rng=None):
 
     # ---- correspondence with the model
     cfg = cfg_tokens(case, arr)
+    # widths of tracers that are not enabled do not exist in the real run: hand the model arbitrary numbers
+    wc = wc.copy()
+    w5 = w5.copy()
+    for t, cols in ((0, [0]), (1, [1, 2, 3]), (2, [4])):
+        if not en[t]:
+            wc[:, t] = 0.37
+            w5[:, cols] = 0.37
     hosts = host_tokens(arr, wc, None)
     lines = [' '.join(['cent'] + cfg + [tri(case, 'alpha_c')] + hosts),
              ' '.join(['sats'] + cfg + [tri(case, 'alpha_s')] + part_tokens(arr, w5, kc_impl)),
@@ -509,7 +516,7 @@ def plan(ctx, scale=1):
     rng = ctx.rng
     sizes_q = [(0, 0), (1, 0), (1, 3), (2, 5), (7, 0), (13, 40), (60, 200)]
     out = []
-    reps = ctx.pick(1, 4) * scale
+    reps = ctx.pick(1, 6) * scale
     for rep in range(reps):
         for subset in g.SUBSETS:
             for flavor in ('exact', 'generic'):
@@ -534,6 +541,12 @@ def run(ctx):
         check_case(ctx, c, ctx.rng)
     for k, (H, P, subset, flavor, rsdmode, ranks) in enumerate(plan(ctx)):
         case = g.gen_case(ctx.rng, H, P, subset, flavor, rsdmode, ranks, label='gen-%d' % k)
+        if k % 16 == 5 and case['part']['pinds']:
+            # numpy fancy indexing keep_cent[pinds] wraps a negative index once: same host, written negatively
+            nh = len(case['halo']['hmass'])
+            case['part']['pinds'] = [j - nh if i % 3 == 0 else j for i, j in enumerate(case['part']['pinds'])]
+            case['label'] += ':negative-pinds'
+            ctx.count('negative-pinds')
         check_case(ctx, case, ctx.rng)
         if len(ctx.failures) >= 8:
             break
@@ -569,6 +582,8 @@ def sub_case(case, hrows, prows):
     """restriction of a case to the given host rows and particle rows (particles of dropped hosts go too)"""
     hrows = list(hrows)
     hmap = {h: k for k, h in enumerate(hrows)}
+    H = len(case['halo']['hmass'])
+    case = dict(case, part=dict(case['part'], pinds=[j if j >= 0 else j + H for j in case['part']['pinds']]))
     prows = [p for p in prows if case['part']['pinds'][p] in hmap]
     c = dict(case)
     c['halo'] = {k: [v[i] for i in hrows] for k, v in case['halo'].items()}
